@@ -50,7 +50,7 @@ _REAL_SEC = ["security.Authenticator (negotiation, CLAIMTOBE, TOKEN/IDTOKENS, EC
 CHECKS["C03"] = {
     "level": "fault_enumeration",
     "technique": _TECH + ": one real endpoint per run against a scripted deviating peer; deviation catalogue x local policy matrix enumerated; puppet's wire record and wiretap as ground truth",
-    "level_text": "Fault enumeration over peers: the real ClientHandshake (against a scripted server) and the real ServerHandshake (against a scripted client) are run for all 4x4 local authentication/encryption levels (plus integrity REQUIRED), three method lists, and every deviation of a catalogue (honest; answers Authentication/Encryption NO or YES against the honest decision; omits/truncates/randomises/garbles the ECDH key; no common cipher; selects a method never offered, several bits, zero; rejects the claim; post-auth DENIED / in clear / under another key; negotiation DENIED; client-side: levels NEVER/OPTIONAL, bitmasks naming unlisted methods), each under both honest base decisions of the peer, with transport nondeterminism drawn per run. Whenever the real endpoint returns success the oracle demands: own authentication REQUIRED => the scripted peer saw an authentication exchange of a method the endpoint itself listed run to completion; own encryption/integrity REQUIRED => the stream is encrypting and the canary message sent next does not appear in clear on the wire; reported Encryption == stream state; reported Authentication/method == what the peer saw run.",
+    "level_text": "Fault enumeration over peers: the real ClientHandshake (against a scripted server) and the real ServerHandshake (against a scripted client) are run for all 4x4 local authentication/encryption levels (plus integrity REQUIRED), three method lists, and every deviation of a catalogue (honest; answers Authentication/Encryption NO or YES against the honest decision; omits/truncates/randomises/garbles the ECDH key; no common cipher; selects a method never offered, several bits, zero; rejects the claim; post-auth DENIED / in clear / under another key; negotiation DENIED; client-side: levels NEVER/OPTIONAL, bitmasks naming unlisted methods), each under both honest base decisions of the peer, with transport nondeterminism drawn per run. Whenever the real endpoint returns success the oracle demands: own authentication REQUIRED => the scripted peer saw an authentication exchange of a method the endpoint itself listed run to completion; own encryption/integrity REQUIRED => the stream is encrypting and the canary message sent next does not appear in clear on the wire; reported Encryption == stream state; reported Authentication/method == what the peer saw run. A second enumerated scenario covers resumed handshakes: a session is first established between two real endpoints under a permissive policy (authenticated or not, with a key or without), then resumed against the endpoint under test with every own policy of the matrix - server role facing the real client and a scripted requester that names the session id regardless, reaching the session directly or through the fallback to the process-wide cache; client role resuming from its own cache: success with authentication REQUIRED demands that the resumed session was an authenticated one, and the encryption rules are as above.",
     "level_note": "The scripted peer speaks CLAIMTOBE only (so 'method that ran' is observable for that method; a real endpoint that starts another selected method is observed to do so and the run ends). Failure returns are always acceptable here (C10 owns 'honest pairs succeed'). Resumed handshakes are covered by C06/C07.",
     "budget": {"quick": 20, "thorough": 600},
     "rule": "a case is one (role, own policy, method list, peer deviation, peer base decision) cell run as a real handshake against the scripted peer; distinct = distinct event-log hash; non-trivial = scheduler had a choice.",
